@@ -14,7 +14,8 @@ EXPLANATION = (
     "shorter than k; (R4) the hand-written 'read N or EOF' helpers return Ok after the loop only on the "
     "`bytes_read == 0` or `buffer filled` edges, so a partial record is UnexpectedEof; (R5) line readers strip LF/CR "
     "only after read_until/read_line returned and only on the true edge of an ends_with test."
-    " (R4, extended) the completeness edge may be a counter-vs-length comparison, and that counter must be accumulated, never overwritten, inside the loop; (R6) CR of a CRLF split across two fill_buf windows: the CR test of every LF scanner is window-independent or on the accumulated buffer (found the genuine defect F16, repaired); (R7) copy before consume: a scanner that appends window bytes to a destination does so on every path that consumes a non-constant amount.")
+    " (R4, extended) the completeness edge may be a counter-vs-length comparison, and that counter must be accumulated, never overwritten, inside the loop; (R6) CR of a CRLF split across two fill_buf windows: the CR test of every LF scanner is window-independent or on the accumulated buffer (found the genuine defect F16, repaired); (R7) copy before consume: a scanner that appends window bytes to a destination does so on every path that consumes a non-constant amount."
+    " (R8) a UTF-8 validator fed the bytes of one window inside a scanning loop must not make its error final (found the genuine defect F17 in the lazy VCF reader, repaired).")
 ASSUMPTIONS = [
     "std/tokio read_exact, read_until, read_line, BufReader reassemble short reads and retry Interrupted (library contract)",
     "the classification is structural: it proves the necessary part (no site assumes a window or a full read), not content equality",
@@ -102,6 +103,24 @@ def run(ctx):
                           "%s consumes window bytes on a path that does not append them to the destination although other paths do: a field that "
                           "continues in the next fill_buf window loses everything before the last refill" % f7.root, f7.loc(s7["bad"]))
     ctx.floor("C12.R7", "copying fill_buf scanners", n7, 6)
+
+    ctx.rule("C12.R8", "A5d unit decoder per window: UTF-8 validation of the bytes of one fill_buf window inside a scanning loop must not make its "
+                      "error final — a character may straddle two windows (zero or more sites; each must carry the incomplete tail over)")
+    n8 = 0
+    for s8 in a5.window_decoder_sites(fb):
+        if not re.search(r".", s8["fn"]):
+            continue
+        n8 += 1
+        f8 = fb.fns[s8["fn"]]
+        ctx.saw_fn(f8)
+        if s8["ok"]:
+            ctx.ok("C12.R8", s8["fn"] + " :: incomplete trailing character is carried over", "Err edge of from_utf8(window) reaches a success exit", f8.loc(s8["block"]))
+        else:
+            ctx.violation("C12.R8", "C12.R8/utf8-per-window/" + f8.root,
+                          "%s validates UTF-8 on the bytes of a single fill_buf window and treats the error as final: a multi-byte character "
+                          "that straddles a buffer refill boundary makes a valid line fail, depending only on how the stream chunks its reads" % f8.root,
+                          f8.loc(s8["block"]))
+    ctx.count("utf8_per_window_sites", n8)
 
     ctx.rule("C12.R4", "A5e read-N-or-EOF helpers: Ok after the loop only when nothing or everything was read")
     for key in ("noodles_bam::io::reader::record::read_exact_or_eof",
